@@ -32,6 +32,10 @@ LAYOUTS: dict[str, list[tuple[str, list[str] | None, str]]] = {
     "ping_pong_scoped": [("h_a", ["bad_a"], "other"), ("h_b", ["bad_b"], "other")],
     "ping_pong_scoped+wildcard": [("h_b", ["bad_b"], "other"), ("h_any", None, "other")],
     "scoped_owner+wildcard_stop": [("h_a", ["bad_a"], "reenter"), ("h_any", None, "stop")],
+    # a handler scoped to NO step (for_steps=[]) covers nothing - it is not a wildcard
+    "scoped_to_nothing": [("h_none", [], "reenter")],
+    "scoped_to_nothing+wildcard": [("h_none", [], "stop"), ("h_any", None, "reenter")],
+    "scoped_to_nothing+scoped_owner": [("h_none", [], "stop"), ("h_a", ["bad_a"], "reenter")],
     # handlers with DIFFERENT budgets (4th element: added to the program's budget): every handler counts on its own
     "scoped_small+wildcard_large": [("h_a", ["bad_a"], "reenter", 0), ("h_any", None, "reenter", 2)],  # type: ignore[list-item]
     "scoped_large+wildcard_small": [("h_a", ["bad_a"], "reenter", 2), ("h_any", None, "reenter", 0)],  # type: ignore[list-item]
@@ -345,7 +349,7 @@ def programs(tier: str) -> list[Program]:
         for budget in ((1, 2) if q else (1, 2, 3)):
             for lineages in ((1, 2) if layout in ("wildcard", "scoped_owner", "scoped_other+wildcard") else (1,)):
                 for with_retry in ((False,) if (q and layout not in ("wildcard",)) else (False, True)):
-                    if layout in ("wildcard_stop", "wildcard_raises", "scoped_raises+wildcard", "none", "scoped_other") and budget > 1:
+                    if layout in ("wildcard_stop", "wildcard_raises", "scoped_raises+wildcard", "none", "scoped_other", "scoped_to_nothing") and budget > 1:
                         continue
                     name = f"catch({layout};budget={budget};lineages={lineages};retry={with_retry})"
                     ps.append(Program(name, {"layout": layout, "budget": budget, "lineages": lineages, "retry": with_retry},
